@@ -9,6 +9,7 @@
    decided by the check on the real tool. *)
 From Lhasa Require Import Base ListN DecBase Loop Generated Crc16 P_Crc16 P_CrcBurst InputStream Header BasicReader
   AnyDecoder Decoder MacBinary Fs FsRun Reader P_ReaderCheck.
+From Lhasa Require P_CliVerdict.
 Local Open Scope N_scope.
 
 (* the CRC compared with the header value is CRC-16/ARC of exactly the bytes produced (C17) *)
@@ -196,6 +197,49 @@ Example check_bad_crc_member : Example.ex_check Example.ex_bad = Ok (Some (90, 5
 Proof. exact Example.check_bad_crc_member. Qed.
 
 
+(* ====== the verdict of the tool (lha t, lha x / e) -- statements: P_CliVerdict.v ======
+   processed mode body argv stdin s hd st1 ok st2: in the run of lha_main the member hd
+   was fetched and the command's body returned ok for it.
+     lha_t_exit_status / lha_x_exit_status: the exit status is 0, 1 or 255; 0 implies every
+       processed member returned 1; 1 implies some member returned 0; 255 only when the
+       archive cannot be opened (t) / on exit(-1) paths (x);
+     lha_t_good_implies_match / lha_t_exit0_implies_match: a regular non-MacOS member with
+       result 1 (or exit status 0) was checked by lha_reader_check and the decoded bytes have
+       the header's length and CRC;  lha_t_mismatch_implies_bad: bytes that mismatch give
+       result 0, the "CRC error" line (quiet < 2) and a non-zero exit status;
+     test_member_spec / extract_member_spec: exactly one library call per member and the
+       exact lines printed (Tested / CRC error; Melted / Failure);
+     x_melted_implies_content: "Melted" is printed only when the file holds exactly the
+       verified bytes; x_mismatch_implies_bad / lha_x_mismatch_implies_bad: on mismatch
+       result 0, "Failure", no time stamp, non-zero exit status.
+   Recorded behaviour outside the property's wording (examples in P_CliVerdict.v): `tn`
+   checks nothing; a member without a decoder fails silently (exit status 1, no line);
+   directory and link entries are good without decoding. *)
+Theorem lha_t_exit_status : ltac:(let t := type of P_CliVerdict.lha_t_exit_status in exact t).
+Proof. exact P_CliVerdict.lha_t_exit_status. Qed.
+Theorem lha_t_bad_exit_nonzero : ltac:(let t := type of P_CliVerdict.lha_t_bad_exit_nonzero in exact t).
+Proof. exact P_CliVerdict.lha_t_bad_exit_nonzero. Qed.
+Theorem test_member_spec : ltac:(let t := type of P_CliVerdict.test_member_spec in exact t).
+Proof. exact P_CliVerdict.test_member_spec. Qed.
+Theorem lha_t_good_implies_match : ltac:(let t := type of P_CliVerdict.lha_t_good_implies_match in exact t).
+Proof. exact P_CliVerdict.lha_t_good_implies_match. Qed.
+Theorem lha_t_exit0_implies_match : ltac:(let t := type of P_CliVerdict.lha_t_exit0_implies_match in exact t).
+Proof. exact P_CliVerdict.lha_t_exit0_implies_match. Qed.
+Theorem lha_t_mismatch_implies_bad : ltac:(let t := type of P_CliVerdict.lha_t_mismatch_implies_bad in exact t).
+Proof. exact P_CliVerdict.lha_t_mismatch_implies_bad. Qed.
+Theorem lha_x_exit_status : ltac:(let t := type of P_CliVerdict.lha_x_exit_status in exact t).
+Proof. exact P_CliVerdict.lha_x_exit_status. Qed.
+Theorem lha_x_bad_exit_nonzero : ltac:(let t := type of P_CliVerdict.lha_x_bad_exit_nonzero in exact t).
+Proof. exact P_CliVerdict.lha_x_bad_exit_nonzero. Qed.
+Theorem extract_member_spec : ltac:(let t := type of P_CliVerdict.extract_member_spec in exact t).
+Proof. exact P_CliVerdict.extract_member_spec. Qed.
+Theorem x_melted_implies_content : ltac:(let t := type of P_CliVerdict.x_melted_implies_content in exact t).
+Proof. exact P_CliVerdict.x_melted_implies_content. Qed.
+Theorem x_mismatch_implies_bad : ltac:(let t := type of P_CliVerdict.x_mismatch_implies_bad in exact t).
+Proof. exact P_CliVerdict.x_mismatch_implies_bad. Qed.
+Theorem lha_x_mismatch_implies_bad : ltac:(let t := type of P_CliVerdict.lha_x_mismatch_implies_bad in exact t).
+Proof. exact P_CliVerdict.lha_x_mismatch_implies_bad. Qed.
+
 Print Assumptions verdict_crc_is_arc.
 Print Assumptions crc16_error_superposition.
 Print Assumptions burst16_detected.
@@ -215,3 +259,15 @@ Print Assumptions check_inner_mismatch_implies_bad.
 Print Assumptions check_dir_entry_always_good.
 Print Assumptions check_good_member.
 Print Assumptions check_bad_crc_member.
+Print Assumptions lha_t_exit_status.
+Print Assumptions lha_t_bad_exit_nonzero.
+Print Assumptions test_member_spec.
+Print Assumptions lha_t_good_implies_match.
+Print Assumptions lha_t_exit0_implies_match.
+Print Assumptions lha_t_mismatch_implies_bad.
+Print Assumptions lha_x_exit_status.
+Print Assumptions lha_x_bad_exit_nonzero.
+Print Assumptions extract_member_spec.
+Print Assumptions x_melted_implies_content.
+Print Assumptions x_mismatch_implies_bad.
+Print Assumptions lha_x_mismatch_implies_bad.
